@@ -108,7 +108,7 @@ Proof.
 Qed.
 
 Definition ex_trace_z : list Z :=
- [2;
+ [0; 2;
   5; 1;0; 3; 0;0;1;1;77; 0;1;1;1;78; 0;2;1;0;79;
      1; 1; 1; 4;2; 0;0;0;1;  2; 1; 1;4;  0;
      1; 1; 1;4; 0;
